@@ -180,20 +180,30 @@ HEADER = ("From Coq Require Import List String NArith.\n"
           "Set Printing Width 1000000.\nSet Printing Depth 1000000.\n")
 
 
-def coq_mismatches(run, tag, rendered, fn="mismatches", shard=60):
+GUARDS = [0, 0, 0]      # cases with a model input / inside input_ok / with regular files only (summed over all shards)
+
+
+def coq_mismatches(run, tag, rendered, fn="mismatches", shard=60, count=False):
     """evaluate the comparison inside Coq, in shards; returns [(index, verdict)]"""
     def one(k):
         lo = k * shard
         body = (HEADER + "Definition cases : list case := [\n%s\n].\n"
                 "Definition M := Eval vm_compute in %s cases.\nPrint M.\n"
+                "Definition G := Eval vm_compute in guard_counts cases.\nPrint G.\n"
                 % (";\n".join(rendered[lo:lo + shard]), fn))
         out = run.coq_eval("%s_%d" % (tag, k), body)
-        return [(lo + i, v) for i, v in lib.parse_coq_list_pairs(out, "M")]
+        g = re.search(r"G = \((\d+)%?N?, (\d+)%?N?, (\d+)%?N?\)", " ".join(out.split()))
+        if g is None:
+            raise lib.CheckBroken("cannot parse guard counts: " + out[-500:])
+        return [(lo + i, v) for i, v in lib.parse_coq_list_pairs(out, "M")], [int(x) for x in g.groups()]
     res = []
     n = (len(rendered) + shard - 1) // shard
     with cf.ThreadPoolExecutor(max_workers=PAR) as ex:
-        for r in ex.map(one, range(n)):
+        for r, g in ex.map(one, range(n)):
             res.extend(r)
+            if count:
+                for j in range(3):
+                    GUARDS[j] += g[j]
     return res
 
 
@@ -555,7 +565,7 @@ def body(run, proof_ok):
     for lo in range(0, len(cases), chunk):
         o, l = run_cases(world, cases[lo:lo + chunk], "c%d_" % (lo // chunk))
         rend = [coq_case(c, x) for c, x in zip(cases[lo:lo + chunk], o)]
-        mism += [(lo + i, v) for i, v in coq_mismatches(run, "c18cases%d" % (lo // chunk), rend)]
+        mism += [(lo + i, v) for i, v in coq_mismatches(run, "c18cases%d" % (lo // chunk), rend, count=True)]
         obs += o
         layouts += l
         run.log("compared %d cases, mismatches so far: %d" % (len(obs), len(mism)))
@@ -618,6 +628,8 @@ def body(run, proof_ok):
         "programs": len(cases) + nwit,
         "typed_cases": len(typed), "typed_cases_with_uncertain_render": sum(1 for c, _ in typed if c.uncertain),
         "opaque_cases": len(opaque),
+        "cases_inside_theorem_guards": {"with_model_input": GUARDS[0], "input_ok (C18_always_a_deliberate_exit_decidable)": GUARDS[1],
+                                        "files_only extras (C18_nonzero_exit_changes_nothing)": GUARDS[2]},
         "exit_status_distribution": exit_dist,
         "observed_diagnostic_classes": dict(sorted(diag_count.items())),
         "diagnostic_classes_never_observed_in_this_run": [d for d in EXPECTED_DIAGS if d not in diag_count and d not in NOT_IN_STREAM
